@@ -16,7 +16,8 @@ Record admissible (pb : problem) (md : model) : Prop := {
   (* every list has the length it must have (number of solutions / of phases) *)
   ad_shape : shape_ok pb md = true;
   (* mole balance of every element:
-       | Sum_states Sum_s sg_s (f_s T_{v,s} + eps_{v,s})  +  Sum_p t_p c_{e,p} |  <= tolb *)
+       | Sum_states Sum_s sg_s (f_s T_{v,s} + eps_{v,s})  +  Sum_p t_p c_{e,p}  +  k_e |  <= tolb
+     (k_e: the reported redox mole transfers' share of the row; 0 for element rows) *)
   ad_balance : forall r, In r (m_rows md) -> Qabs (balance_res pb md r) <= p_tolb pb;
   (* every adjustment within its declared uncertainty:  |eps| <= b f + tolu *)
   ad_adjust : forall v, all_vrows md v ->
@@ -207,7 +208,7 @@ Example ex_pb : problem :=
   {| p_sgn := [1; -1]; p_cons := [1%Z]; p_range := true; p_tolb := 1#1000000; p_tolu := 0; p_tolr := 0 |}.
 Example ex_md : model :=
   {| m_fr := [1; 1]; m_tr := [1#2];
-     m_rows := [ {| e_states := [ {| v_T := [1; 3#2]; v_e := [1#100; 1#100]; v_b := [1#10; 1#10] |} ]; e_c := [1] |} ];
+     m_rows := [ {| e_states := [ {| v_T := [1; 3#2]; v_e := [1#100; 1#100]; v_b := [1#10; 1#10] |} ]; e_c := [1]; e_k := 0 |} ];
      m_extra := []; m_frng := [(1,1); (1,1)]; m_trng := [(1#4, 3#4)] |}.
 Example ex_admissible : admissible ex_pb ex_md.
 Proof. apply check_inverse_sound_lemma. vm_compute. reflexivity. Qed.
